@@ -896,6 +896,8 @@ def adapt_typehints(
             val = list(val)
         elif not isinstance(val, list):
             raise_unexpected_value(f"Expected a {typehint_origin}", val)
+        else:
+            val = list(val)
         if subtypehints is not None:
             for n, v in enumerate(val):
                 if isinstance(prev_val, list) and len(prev_val) == len(val):
@@ -916,6 +918,8 @@ def adapt_typehints(
             val = dict(val)
         elif not isinstance(val, dict):
             raise_unexpected_value(f"Expected a {typehint_origin}", val)
+        else:
+            val = dict(val)
         if subtypehints is not None:
             if subtypehints[0] == int:
                 cast = str if serialize else int
